@@ -578,13 +578,12 @@ TRUSTED = [
 
 
 def run(ctx):
-    ctx.prove(["C18/Model.v", "C18/Causal.v", "C18/CRDT.v", "C18/Props.v"], allowed_axioms=(), trusted_base=TRUSTED)
+    ctx.prove(["C18/Model.v", "C18/Causal.v", "C18/CRDT.v", "C18/VectorIff.v", "C18/Props.v"], allowed_axioms=(), trusted_base=TRUSTED)
     n = ctx.n(250, 6000)
     stats = [run_family(ctx, fam, n) for fam in FAMILIES]
     merge_stats(ctx, stats, "random structured histories/op schedules over 2-5 replicas; non-trivial = contains a receive/merge/remove; distinct by JSON of the input")
     ctx.finish_obligations()
     ctx.assumptions += [
-        "vector-clock 'exactly when' is proved in the => direction only (c18_vector_causal_partial); the <= direction is checked by the oracle on every generated history",
         "OR-set specification is refuted on the faithful model (c18_orset_add_wins_refuted) and recorded as known finding C18-orset-resurrect",
     ]
 
